@@ -447,6 +447,14 @@ theorem posXi2_momentum (s : Sys K) (st : Positional.State K) (act : List K) (h 
   · intro i hi hroot; rw [h.hlen] at hi
     exact jointDisplacements_free s _ _ hi (h.hroot i hi hroot)
 
+/-- renormalising the rotations (the contact-free path of `resolve_position`) moves no position -/
+theorem nth_map_pos (l : List (Tf K)) (g : Q4 K → Q4 K) (i : Nat) :
+    (nth (l.map fun t => (⟨t.pos, g t.rot⟩ : Tf K)) i).pos = (nth l i).pos := by
+  simp only [nth, List.getD_eq_getElem?_getD, List.getElem?_map]
+  cases l[i]? with
+  | none => rfl
+  | some t => rfl
+
 /-- the contact position update inside the step moves no momentum -/
 theorem posRp_momentum (cf : List (Tf K) → List (Contact K)) (s : Sys K) (st : Positional.State K)
     (act : List K) (h : FreeRooted s) (hok : PosOK s st)
@@ -459,7 +467,7 @@ theorem posRp_momentum (cf : List (Tf K) → List (Contact K)) (s : Sys K) (st :
   · rw [if_pos he]
     apply Finset.sum_eq_zero
     intro i _
-    rw [V3.sub_self']
+    rw [nth_map_pos, V3.sub_self']
     exact smul_zero' _
   · rw [if_neg he]
     apply positionSpread_momentum
